@@ -22,6 +22,7 @@ import (
 	"strings"
 	"sync"
 	"syscall"
+	"testing/iotest"
 	"time"
 	"unsafe"
 
@@ -286,6 +287,9 @@ type state struct {
 	bufs  map[int][]byte
 	keep  []kept
 	errs  []keptErr
+	// address and length of the previous call's string argument (a number, not a reference)
+	prevArgAddr uintptr
+	prevArgLen  int
 	// the error value of the call that exec is making (nil when none); per state, hence per goroutine
 	lastErr error
 	// a scripted source installed by "srcset" that stays in place over the following calls
@@ -393,6 +397,30 @@ func (st *state) exec(op *plan.Op, shared *scripted) (res plan.Res) {
 	var prev io.Reader
 	if src != nil {
 		prev = bip39.VerifSwapRandSource(src)
+	}
+	if op.Fn == "chk" || op.Fn == "val" || op.Fn == "chkval" || op.Fn == "seed" {
+		// the argument lives in its own heap object, like a string a caller just built
+		if op.Reuse && st.prevArgAddr != 0 && len(s) == st.prevArgLen && len(s) > 0 {
+			// the previous call's argument is garbage by now: collect it and try to get this
+			// argument allocated at the very same address (identity is not equality)
+			runtime.GC()
+			var hold []string
+			for try := 0; try < 512; try++ {
+				cand := string(append([]byte(nil), s...))
+				if uintptr(unsafe.Pointer(unsafe.StringData(cand))) == st.prevArgAddr {
+					s = cand
+					res.Info = append(res.Info, "address-reused")
+					break
+				}
+				hold = append(hold, cand)
+			}
+			runtime.KeepAlive(hold)
+		} else if len(s) > 0 {
+			s = string(append([]byte(nil), s...))
+		}
+		if len(s) > 0 {
+			st.prevArgAddr, st.prevArgLen = uintptr(unsafe.Pointer(unsafe.StringData(s))), len(s)
+		}
 	}
 	isNew := op.Fn == "new" || op.Fn == "newchk"
 	persistMark := -1
@@ -556,7 +584,20 @@ func (st *state) exec(op *plan.Op, shared *scripted) (res plan.Res) {
 			}
 			st.persist = newScripted(op.Src, false)
 			st.persist.keepData = true
-			st.persistPrev = bip39.VerifSwapRandSource(st.persist)
+			var installed io.Reader = st.persist
+			switch op.Src.Wrap {
+			case "bufio":
+				installed = bufio.NewReader(st.persist)
+			case "bufio16":
+				installed = bufio.NewReaderSize(st.persist, 16)
+			case "multi":
+				installed = io.MultiReader(st.persist)
+			case "limited":
+				installed = &io.LimitedReader{R: st.persist, N: 1 << 40}
+			case "iotest-onebyte":
+				installed = iotest.OneByteReader(st.persist)
+			}
+			st.persistPrev = bip39.VerifSwapRandSource(installed)
 			res.OutOK = true
 		case "srcunset":
 			if st.persist != nil {
